@@ -161,7 +161,11 @@ def channel_kwargs(ch, triples, d, idx):
             with zipfile.ZipFile(zp, "w") as zf:
                 for j, p in enumerate(parts):
                     if j % nz == z:
-                        zf.writestr("m%d.%s" % (j, ext), content(fmt, p, ch.get("pfx", 0)))
+                        # members may sit in folders of the archive (a zipped directory); folder entries themselves are not files
+                        folder = ["", "dump/", "dump/sub/"][(j + ch.get("pfx", 0)) % 3]
+                        if folder and folder not in zf.namelist():
+                            zf.writestr(folder, "")
+                        zf.writestr("%sm%d.%s" % (folder, j, ext), content(fmt, p, ch.get("pfx", 0)))
                 if not zf.namelist():
                     zf.writestr("empty.%s" % ext, content(fmt, []) if fmt not in ("xml", "json-ld") else content(fmt, parts[0][:0]))
             zips.append(zp)
